@@ -188,6 +188,11 @@ package raft
 //@ pure WSDistinct(l *leader) bool = forall(i, j, InWS(l, i) && InWS(l, j) && i != j ==> WSTask(l, i) != WSTask(l, j))
 // the configuration that Raft.setCommitIndex(index) commits / whether checkConfigActions runs afterwards
 //@ pure CommitsCfg(l *leader, index uint64) bool = !CfgCommitted(l.storage) && l.configs.Latest.Index <= index
+// this step commits the first entry of the leader's own term (D7 repair: membership actions are postponed until then
+// and are started by this step, unless the step commits a configuration, which runs them anyway when it is not stable)
+//@ pure CommitReady(l *leader, index uint64) bool = l.commitIndex < l.startIndex && index >= l.startIndex
+// checkConfigActions runs in this step
+//@ pure RunsActions(l *leader, index uint64) bool = (CommitsCfg(l, index) && !CfgStable(l.configs.Latest)) || (!CommitsCfg(l, index) && CommitReady(l, index))
 
 //@ func (*leader).setCommitIndex
 //@   requires LeaderWF(l) && l.flushed >= l.commitIndex
@@ -196,10 +201,21 @@ package raft
 //@   maypanic OpError
 //@   ensures [C06.flush-before-advance] l.flushed >= l.commitIndex
 //@   crash_inv [C06.flush-before-advance] l.flushed >= l.commitIndex
-//@   panic_ensures [C06.flush-before-advance] old(!(CommitsCfg(l, index) && !CfgStable(l.configs.Latest))) ==> l.commitIndex == old(l.commitIndex)
-//@   ensures [C02.commit-set] old(!(CommitsCfg(l, index) && !CfgStable(l.configs.Latest))) ==> l.commitIndex == index && l.lastLogIndex == old(l.lastLogIndex) && l.configs.Latest == old(l.configs.Latest) && forall(x, NextOf(x) == old(NextOf(x))) && l.neHead == old(l.neHead) && l.neTail == old(l.neTail)
+// a storage fault in a step that does not run checkConfigActions comes from the flush (commitLog): the commit index has
+// not moved. (In a step that runs checkConfigActions the fault may also come from the append of an action's entry,
+// after the commit index was advanced over flushed entries: crash_inv above.)
+//@   panic_ensures [C06.flush-before-advance] old(!RunsActions(l, index)) ==> l.commitIndex == old(l.commitIndex)
+//@   ensures [C02.commit-set] old(!RunsActions(l, index)) ==> l.commitIndex == index && l.lastLogIndex == old(l.lastLogIndex) && l.configs.Latest == old(l.configs.Latest) && forall(x, NextOf(x) == old(NextOf(x))) && l.neHead == old(l.neHead) && l.neTail == old(l.neTail)
+// the commit-ready step that commits no configuration runs checkConfigActions (D7 repair). While the latest
+// configuration is still uncommitted or a leadership transfer is in progress every action stays postponed:
+//@   ensures [C02.commit-set] old(!CommitsCfg(l, index) && CommitReady(l, index) && !(CfgCommitted(l.storage) && !l.transfer.timer.active)) ==> l.commitIndex == index && l.lastLogIndex == old(l.lastLogIndex) && l.configs.Latest == old(l.configs.Latest) && l.configs.Committed == old(l.configs.Committed)
+//@   ensures [C08.unstable-keeps-waiters] old(!CommitsCfg(l, index) && CommitReady(l, index) && !(CfgCommitted(l.storage) && !l.transfer.timer.active)) ==> l.waitStable == old(l.waitStable) && forall(t, GRep(t) == old(GRep(t)))
+// progress (supporting): the postponed action on the leader itself is started by the commit-ready step
+//@   ensures old(!CommitsCfg(l, index) && CommitReady(l, index) && CfgCommitted(l.storage) && !l.transfer.timer.active && l.configs.Latest.Nodes[l.nid].Action != None && l.node.Voter) ==> l.configs.Latest.Index > old(l.configs.Latest.Index)
+// otherwise the actions may start: what then changes is bounded by the unconditional clauses below (commit index >= index,
+// log append-only with own-term entries, configurations only move forward) - exactly checkConfigActions' contract
 //@   ensures [C08.stable-replies-waiters] old(CommitsCfg(l, index) && CfgStable(l.configs.Latest) && WSDistinct(l)) ==> l.waitStable == nil && forall(i, old(InWS(l, i)) && old(WSTask(l, i)) != nil ==> GRep(old(WSTask(l, i))) == old(GRep(WSTask(l, i))) + 1)
-//@   ensures [C08.unstable-keeps-waiters] old(!CommitsCfg(l, index)) ==> l.waitStable == old(l.waitStable) && forall(t, GRep(t) == old(GRep(t)))
+//@   ensures [C08.unstable-keeps-waiters] old(!CommitsCfg(l, index) && !CommitReady(l, index)) ==> l.waitStable == old(l.waitStable) && forall(t, GRep(t) == old(GRep(t)))
 //@   ensures [C08.configs-change-only-forward] l.configs.Latest.Index >= old(l.configs.Latest.Index) && (old(CfgCommitted(l.storage)) && l.configs.Latest.Index == old(l.configs.Latest.Index) ==> l.configs.Latest == old(l.configs.Latest) && l.configs.Committed == old(l.configs.Committed))
 //@   ensures LeaderWF(l) && l.Raft == old(l.Raft) && l.storage == old(l.storage) && l.startIndex == old(l.startIndex) && l.term == old(l.term) && l.nid == old(l.nid)
 //@   ensures l.commitIndex >= index && l.lastLogIndex >= old(l.lastLogIndex)
@@ -297,11 +313,16 @@ package raft
 //@   ensures [C04.leader-append-only] l.lastLogIndex >= old(l.lastLogIndex) && forall(i, i <= old(l.lastLogIndex) ==> l.gterm[i] == old(l.gterm[i]) && l.gtyp[i] == old(l.gtyp[i]))
 //@   ensures [C02.own-term-entries] forall(i, old(l.lastLogIndex) < i && i <= l.lastLogIndex ==> l.gterm[i] == l.term)
 //@   ensures [C08.configs-change-only-forward] l.configs.Latest.Index >= old(l.configs.Latest.Index) && (old(CfgCommitted(l.storage)) && l.configs.Latest.Index == old(l.configs.Latest.Index) ==> l.configs.Latest == old(l.configs.Latest) && l.configs.Committed == old(l.configs.Committed))
+// a batch that starts with a configuration entry and is not rejected: the configuration is adopted inside the call
+// (appendEntry, decode, (*leader).changeConfig: [C08.adopt]); later steps only move the latest configuration forward
+//@   ensures [C08.accepted-config-adopted] old(!Rej(l) && TypOf(ne0) == entryConfig) ==> l.configs.Latest.Index > old(l.configs.Latest.Index)
 //@   ensures LeaderWF(l) && l.Raft == old(l.Raft) && l.storage == old(l.storage) && l.startIndex == old(l.startIndex) && l.term == old(l.term) && l.nid == old(l.nid)
 //@   ensures l.commitIndex >= old(l.commitIndex) && (l.commitIndex != old(l.commitIndex) ==> l.commitIndex >= l.startIndex)
 //@   ensures [C06.flush-before-advance] l.flushed >= l.commitIndex
 //@   ensures l.repls == old(l.repls) && forall(p, ReplId(p) == old(ReplId(p)))
 //@   loop 1 invariant l.repls == old(l.repls) && forall(p, ReplId(p) == old(ReplId(p)))
+// first iteration (ne == ne0): nothing the acceptance test reads has changed yet; afterwards: adopted
+//@   loop 1 invariant [C08.accepted-config-adopted] (ne == ne0 && l.transfer.timer == old(l.transfer.timer) && l.transfer.timer.active == old(l.transfer.timer.active) && l.node.Voter == old(l.node.Voter) && l.configs.Latest.Index == old(l.configs.Latest.Index) && TypOf(ne0) == old(TypOf(ne0))) || (old(!Rej(l) && TypOf(ne0) == entryConfig) ==> l.configs.Latest.Index > old(l.configs.Latest.Index))
 //@   loop 1 invariant l.configs.Latest.Index >= old(l.configs.Latest.Index) && (l.configs.Latest.Index == old(l.configs.Latest.Index) ==> l.configs.Latest == old(l.configs.Latest) && l.configs.Committed == old(l.configs.Committed))
 //@   loop 1 invariant LeaderWF(l) && l.Raft == old(l.Raft) && l.storage == old(l.storage) && l.startIndex == old(l.startIndex) && l.term == old(l.term) && l.nid == old(l.nid)
 //@   loop 1 invariant l.commitIndex >= old(l.commitIndex) && (l.commitIndex != old(l.commitIndex) ==> l.commitIndex >= l.startIndex) && l.flushed >= l.commitIndex
